@@ -3730,10 +3730,20 @@ func rulePointReadClamped(e *Engine, r *Report) {
 		return
 	}
 	n := 0
-	for _, s := range e.SitesIn(it, ge) {
-		n++
-		r.guard("GD-point-read-clamped", "point read in "+fname(it)+" #"+itoa(n), s.(ssa.Instruction),
-			reqCmp("index <= maxIndex", "<=", anyV(), func(v ssa.Value) bool { return v == ssa.Value(maxP) }))
+	for _, g := range e.regionOf(it, 1) {
+		for _, s := range e.SitesIn(g, ge) {
+			n++
+			if g == it {
+				r.guard("GD-point-read-clamped", "point read in "+fname(it)+" #"+itoa(n), s.(ssa.Instruction),
+					reqCmp("index <= maxIndex", "<=", anyV(), func(v ssa.Value) bool { return v == ssa.Value(maxP) }))
+				continue
+			}
+			// the point read moved into a helper: every call of the helper from iterate sits behind the clamp
+			for _, cs := range e.SitesIn(it, g) {
+				r.guard("GD-point-read-clamped", "point read (via "+fname(g)+") in "+fname(it)+" #"+itoa(n), cs.(ssa.Instruction),
+					reqCmp("index <= maxIndex", "<=", anyV(), func(v ssa.Value) bool { return v == ssa.Value(maxP) }))
+			}
+		}
 	}
 	r.floor("GD-point-read-clamped", n, 1)
 }
